@@ -39,12 +39,14 @@ PLAN = {
         "quick": [("hostile_1msg_full", dict(mode="hostile", hidx="HIdxFull", hmax=1)),
                   ("hostile_2msg_small", dict(mode="hostile", hidx="HIdxTiny", hmax=2)),
                   ("hostile_2envs", dict(mode="hostile", hty="HTy2", htg="HTg1", hsd="HSd0", hidx="HIdx01", hdat="HDat1", hmax=1, henvs=2)),
-                  ("hostile_writer_target", dict(mode="hostile", htg="HTgW", hsd="HSd0", hidx="HIdx01", hmax=1))],
+                  ("hostile_writer_target", dict(mode="hostile", htg="HTgW", hsd="HSd0", hidx="HIdx01", hmax=1)),
+                  ("hostile_response_target", dict(mode="hostile", hty="HTy2", htg="HTgR", hsd="HSd0", hidx="HIdx01", hdat="HDat1", hmax=2))],
         "thorough": [("hostile_1msg_full", dict(mode="hostile", hidx="HIdxFull", hmax=1)),
                      ("hostile_2msg", dict(mode="hostile", hidx="HIdxSmall", hmax=2)),
                      ("hostile_2envs", dict(mode="hostile", hty="HTy2", htg="HTg1", hsd="HSd0", hidx="HIdxTiny", hmax=2, henvs=2, hdat="HDat1")),
                      ("hostile_3envs", dict(mode="hostile", hty="HTy2", htg="HTg1", hsd="HSd0", hidx="HIdx01", hdat="HDat1", hmax=1, henvs=3)),
-                     ("hostile_writer_target", dict(mode="hostile", htg="HTgW", hsd="HSd0", hidx="HIdxSmall", hmax=2))],
+                     ("hostile_writer_target", dict(mode="hostile", htg="HTgW", hsd="HSd0", hidx="HIdxSmall", hmax=2)),
+                     ("hostile_response_target", dict(mode="hostile", hty="HTy2", htg="HTgR", hsd="HSd0", hidx="HIdx01", hdat="HDat1", hmax=2))],
     },
 }
 REGRESSION = {
